@@ -16,6 +16,18 @@ chk('C01', 'exploration', 'bounded exhaustive enumeration of formulas x traces o
     'trusted: vf/refsem.py (literal transcription of the README definition); values dyadic; longer traces / deeper formulas not covered',
     'DESIGN.md section 5 C01')
 
+chk('C02', 'model_checking', 'explicit-state BFS over update() histories of the real online monitor (product with a reference summary), to fixpoint where the search closes',
+    'for every past-time formula of the stated set the reachable state space of the real online monitor over a finite value alphabet is explored breadth-first; '
+    'every transition is one real update() and is compared with the reference rho and with rtamt offline evaluate(); a closed search covers traces of every length over the alphabet',
+    'trusted: vf/refsem.py; state key = generic object-graph dump x reference summary, merges validated one step deep; capped searches are reported as bounded',
+    'DESIGN.md section 5 C02, section 1 (E2)')
+
+chk('C03', 'model_checking', 'explicit-state BFS over update() histories of the real pastified monitor against the delayed reference',
+    'for every bounded-future formula of the stated set (<=2 operators, 3-chains, unit-spelled bounds, arithmetic atoms) the real pastified online monitor is explored breadth-first over a finite value alphabet; '
+    'every update i >= h must return the reference robustness at i-h; future-free formulas must be unchanged by pastify() for every unit spelling',
+    'trusted: vf/refsem.py incl. its horizon; one open known finding (site:C03-past-over-future) is suppressed by a syntactic predicate; default 1 s sampling period',
+    'DESIGN.md section 5 C03')
+
 def main():
     props = [json.loads(l) for l in open(os.path.join(ROOT, 'properties.jsonl'))]
     checks = []
